@@ -127,6 +127,19 @@ where
     }
 }
 
+/// Read-only view of the private state for the verification harness (feature `ipa-verif`,
+/// test builds only): `(active.len(), active.capacity())`.
+#[cfg(all(test, feature = "ipa-verif"))]
+impl<S, F> SequentialFutures<'_, S, F>
+where
+    S: Stream<Item = F> + Send,
+    F: IntoFuture,
+{
+    pub(super) fn ipa_verif_state(&self) -> (usize, usize) {
+        (self.active.len(), self.active.capacity())
+    }
+}
+
 #[cfg(all(test, unit_test))]
 mod local_test {
     use std::{
